@@ -5,6 +5,7 @@ C14 — (store level) a failing operation yields no new state.
 -/
 import Rmk.Proofs.StoreLaws
 import Rmk.Proofs.StoreContent
+import Rmk.Proofs.StoreGuardLaws
 namespace Rmk.C05
 open Rmk Rmk.Impl Rmk.StoreLaws
 
@@ -73,5 +74,43 @@ theorem failed_op_no_state (H : Hash) (s : Store) (r : Nat) (op : Op) :
         (apply H o.ty o.backing op = none ∨
          ∃ n, apply H o.ty o.backing op = some n ∧ setBacking H (r + 1) s r n = none) :=
   step_mutate_eq_none_iff H s r op
+
+/-! ### the guarded store (`Impl/StoreGuard.lean`): value views of a union remember the selector they were handed out
+    for; a write through a view of an option that is no longer selected is refused (D18) -/
+
+/-- every step of the guarded store is a step of the store semantics above: `propagates`, `content`, `frame`,
+    `copies_independent`, `valid_invariant` all apply to it; the guard only adds failures -/
+theorem guarded_refines (H : Hash) (g g' : GStore) (op : SOp) (h : stepG H g op = some g') :
+    step H g.views op = some g'.views := StoreGuardLaws.stepG_refines H g g' op h
+
+/-- …and it adds a failure exactly when some hook on the way up is stale -/
+theorem guarded_eq_unless_stale (H : Hash) (g : GStore) (r : Nat) (op : Op)
+    (h : staleChain H g.views g.sels (r + 1) r = false) :
+    (stepG H g (.mutate r op)).map (·.views) = step H g.views (.mutate r op) :=
+  StoreGuardLaws.stepG_of_not_stale H g r op h
+
+/-- C14 at the store level: a write through a view whose union parent has moved on raises (no new state) -/
+theorem stale_write_refused (H : Hash) (g : GStore) (r : Nat) (op : Op)
+    (h : staleChain H g.views g.sels (r + 1) r = true) : stepG H g (.mutate r op) = none :=
+  StoreGuardLaws.stale_refused H g r op h
+
+/-- TYPE SAFETY of union write-back, for whole histories: starting from one root view, after any history of guarded
+    steps every union value view still remembers a selector that designates the option of the view's own type, and
+    every write that is let through stores, in every union on the way up, a node of the type of the option that union
+    has selected NOW. -/
+theorem guarded_union_write_typed (H : Hash) (o : VObj) (ho : o.hook = none) (ops : List SOp) (g : GStore)
+    (hrun : runG H { views := [o], sels := [none] } ops = some g)
+    (r : Nat) (op : Op) (g' : GStore) (h : stepG H g (.mutate r op) = some g')
+    (c : Nat) (oc po : VObj) (p key : Nat) (hasNone : Bool) (opts : List Ty)
+    (hmem : c ∈ chain g.views r) (hc : g.views[c]? = some oc) (hh : oc.hook = some (p, key))
+    (hp : g.views[p]? = some po) (hu : po.ty = .union hasNone opts) :
+    ∃ sel, unionSel H po.backing = some sel ∧ Spec.optType hasNone opts sel = some oc.ty := by
+  have hv0 : Valid ([o] : Store) := by
+    intro r' o' hr' p' key' hk'
+    cases r' with
+    | zero => simp at hr'; subst hr'; simp [ho] at hk'
+    | succ n => simp at hr'
+  obtain ⟨_, _, ht⟩ := StoreGuardLaws.selTyped_run H ops { views := [o], sels := [none] } g hv0 (by simp) (StoreGuardLaws.selTyped_init H o ho) hrun
+  exact StoreGuardLaws.guarded_write_selected_option_chain H g g' r op c oc po p key hasNone opts ht h hmem hc hh hp hu
 
 end Rmk.C05
